@@ -62,6 +62,10 @@ def assign_modes(prog, rng, how):
             n['mode'] = rng.choice(gen.ALL_MODES)
         else:
             n['mode'] = how
+        if str(n.get('tag_style', '')).startswith('coro_'):
+            n.pop('tag_style')
+        if n['mode'] == 'async_tagged' and rng.random() < 0.6:
+            n['tag_style'] = rng.choice(['coro_thread', 'coro_process'])     # a coroutine that carries a pool tag
     for n in p['nodes'].values():
         if n.get('generic_of'):
             p['nodes'][n['generic_of']]['mode'] = n['mode']     # the mode lives on the generic base class
@@ -261,7 +265,7 @@ def registry_states():
     out = []
     for th in ('none', 'ok', 'shutdown'):
         for pr in ('none', 'ok', 'shutdown', 'no_manager'):
-            for need in ('thread', 'process', 'both', 'async_only'):
+            for need in ('thread', 'process', 'both', 'async_only', 'inline_only'):
                 out.append({'thread': th, 'process': pr, 'need': need})
     # histories on one chart: a first run with both pools alive, then a pool is shut down and the SAME chart runs again
     for need in ('thread', 'process', 'both', 'async_only'):
@@ -277,6 +281,12 @@ def registry_states():
             for pr in ('none', 'ok'):
                 for need in ('process', 'both'):
                     out.append({'thread': th, 'process': pr, 'need': need, 'variant': variant})
+    # a non_async (in-place) node declared before / after the nodes that need a pool: it needs none itself and must not
+    # hide the others from the builder's pool analysis
+    for variant in ('inline_first', 'inline_last'):
+        for th, pr in (('none', 'none'), ('ok', 'none'), ('none', 'ok'), ('ok', 'ok')):
+            for need in ('thread', 'process', 'both'):
+                out.append({'thread': th, 'process': pr, 'need': need, 'variant': variant})
     return out
 
 
@@ -327,11 +337,16 @@ def state_main(stt):
         return {'id': i, 'mode': mode, 'params': [['abc'[k], ['in', d]] for k, d in enumerate(deps)],
                 'kind': 'plain', 'plan': {}}
     need = stt['need']
-    m1 = {'thread': 'thread', 'process': 'process', 'both': 'thread', 'async_only': 'async'}[need]
-    m2 = {'thread': 'thread', 'process': 'process', 'both': 'process', 'async_only': 'async'}[need]
+    m1 = {'thread': 'thread', 'process': 'process', 'both': 'thread', 'async_only': 'async', 'inline_only': 'inline'}[need]
+    m2 = {'thread': 'thread', 'process': 'process', 'both': 'process', 'async_only': 'async', 'inline_only': 'inline'}[need]
     nodes = {'N0': dict(N('N0', 'async', []), plain_params=['x']), 'N1': N('N1', m1, ['N0']),
              'N2': N('N2', m2, ['N0']), 'N3': N('N3', 'async', ['N1', 'N2'])}
     prog = {'nodes': nodes, 'order': ['N0', 'N1', 'N2', 'N3'], 'input': 'N0', 'output': 'N3'}
+    if stt.get('variant') in ('inline_first', 'inline_last'):
+        nodes['N4'] = N('N4', 'inline', ['N0'])
+        deps = ['N4', 'N1', 'N2'] if stt['variant'] == 'inline_first' else ['N1', 'N2', 'N4']
+        nodes['N3'] = N('N3', 'inline' if stt['variant'] == 'inline_first' else 'async', deps)
+        prog['order'] = ['N0', 'N1', 'N2', 'N4', 'N3']
     if stt.get('variant') == 'async_default':
         nodes['N1']['plan'] = {'fail': ['ALWAYS', 'E1']}
         nodes['N1']['retry'] = {'use_default': True}
